@@ -299,7 +299,46 @@ func init() {
 		fr.vals[res] = Val{T: r}
 		return fr.vals[res]
 	})
-	reg("(*github.com/tokenized/pkg/wire.OutPoint).OutpointHash", "uninterpreted function of the outpoint value", nil, pureUF("uf!OutpointHash"))
+	reg("(github.com/tokenized/pkg/wire.OutPoint).OutpointHash", "uninterpreted function of the outpoint value; result in a fresh box", boxMods, boxedUF("uf!OutpointHash"))
+	reg("(*github.com/tokenized/pkg/wire.OutPoint).OutpointHash", "uninterpreted function of the outpoint value; result in a fresh box", boxMods, boxedUF("uf!OutpointHash"))
+}
+
+func boxMods(ms *ModSet, c *ssa.CallCommon) {
+	if c != nil {
+		ki := kiBox(deref(c.Signature().Results().At(0).Type()))
+		ki.FreshOnly = true
+		ms.add(ki)
+	}
+}
+
+// boxedUF: returns a pointer to a fresh box holding UF(pointee values of the arguments).
+func boxedUF(name string) func(fr *Frame, st *State, c *ssa.CallCommon, args []Val, res ssa.Value) Val {
+	return func(fr *Frame, st *State, c *ssa.CallCommon, args []Val, res ssa.Value) Val {
+		v := fr.v
+		var ts, sorts []string
+		for i, a := range c.Args {
+			at := a.Type()
+			if p, ok := at.Underlying().(*types.Pointer); ok && !isRefStruct(p.Elem()) || ok && args[i].Loc != nil {
+				ts = append(ts, v.loadPtr(st, args[i], p.Elem()))
+				sorts = append(sorts, v.smt.sortOf(p.Elem()))
+				continue
+			} else if ok && isRefStruct(p.Elem()) {
+				ts = append(ts, v.loadPtr(st, args[i], p.Elem()))
+				sorts = append(sorts, v.smt.sortOf(p.Elem()))
+				continue
+			}
+			ts = append(ts, fr.term(st, a))
+			sorts = append(sorts, v.smt.sortOf(at))
+		}
+		rt := deref(c.Signature().Results().At(0).Type())
+		f := v.smt.declareFun(name, sorts, v.smt.sortOf(rt))
+		r := v.newRef(st, "uf")
+		v.storePtr(st, Val{T: r}, rt, app(f, ts...))
+		if res != nil {
+			fr.vals[res] = Val{T: r}
+		}
+		return Val{T: r}
+	}
 }
 
 func pureOpaqueNonNilErr(fr *Frame, st *State, c *ssa.CallCommon, args []Val, res ssa.Value) Val {
